@@ -37,10 +37,15 @@ Names(fr) == IF Len(fr) = 0 THEN "" ELSE FName(Head(fr)) \o (IF Len(fr) > 1 THEN
 TopOp(items) == LET t == Intended(items) IN t.op
 \* locus: for a text the specification rejects, the production that failed and the class of the byte it failed on; for a
 \* text it accepts, the fragment kinds it denotes (and the first fragment that differs)
+KeyKind(k) == IF \E j \in 1..Len(k) : k[j] >= 240 THEN "astral" ELSE IF \E j \in 1..Len(k) : k[j] >= 128 THEN "nonascii"
+              ELSE IF \E j \in 1..Len(k) : k[j] \in {34, 39, 92} \/ k[j] < 32 \/ k[j] = 127 THEN "escaped" ELSE "plain"
+DiffName(f) == IF f.f = "child" THEN "child(" \o KeyKind(f.k) \o ")" ELSE FName(f)
 LocusOf(ev, r, kind) ==
     IF ~r.ok THEN <<r.at, Cls(At(ev.b, r.i))>>
     ELSE IF ev.api = "ParseString"
-         THEN <<Names(r.v), IF kind = "wrong-denotation" THEN ToString(FirstDiff(r.v, ev.fr)) ELSE "-">>
+         THEN (IF kind = "wrong-denotation"
+               THEN <<"fragment", IF FirstDiff(r.v, ev.fr) <= Len(r.v) THEN DiffName(r.v[FirstDiff(r.v, ev.fr)]) ELSE "extra">>
+               ELSE <<Names(r.v), "-">>)
          ELSE <<"script " \o TopOp(r.v), "-">>
 
 Judge == /\ c <= N
